@@ -21,7 +21,7 @@ def stress(c, binary, configs, timeout=240):
     for cfg in configs:
         for g in ("1", "0"):
             env = dict(GOENV, GODEBUG="asynctimerchan=" + g)
-            args = ([cfg[0], str(c.seed)] + [str(x) for x in cfg[1:]]) if cfg and cfg[0] == "wake" else [str(c.seed)] + [str(x) for x in cfg]
+            args = ([cfg[0], str(c.seed)] + [str(x) for x in cfg[1:]]) if cfg and cfg[0] in ("wake", "extreme") else [str(c.seed)] + [str(x) for x in cfg]
             runs += 1
             try:
                 p = subprocess.run([binary, "c08-dq-stress"] + args, stdout=subprocess.PIPE, stderr=subprocess.PIPE,
@@ -35,7 +35,7 @@ def stress(c, binary, configs, timeout=240):
             for l in lines[:3]:
                 kind = l.split()[1].rstrip(":")
                 hits.append({"kind": kind, "result": l[len("VIOLATION "):][:400], "asynctimerchan": g,
-                             "how": "GODEBUG=asynctimerchan=%s h c08-dq-stress %s   (args: seed capacity producers consumers perProducer [maxDelayMs tolMs cancelPct] | wake seed consumers [rounds])" % (g, " ".join(args)),
+                             "how": "GODEBUG=asynctimerchan=%s h c08-dq-stress %s   (args: seed capacity producers consumers perProducer [maxDelayMs tolMs cancelPct] | wake seed consumers [rounds] | extreme seed [rounds])" % (g, " ".join(args)),
                              "goroutine_dump": err[-3000:] if kind in ("hang", "late-wakeup") else ""})
     return hits, runs
 
@@ -81,6 +81,8 @@ def run(c, binary, labels, tier, focus):
         configs = [(0, 8, 8, 500), (0, 2, 6, 400, 5), (1, 4, 4, 300), (2, 6, 3, 300), (3, 4, 8, 400, 40), (1, 3, 2, 200, 20, 5, 15), (0, 4, 4, 300, 20, 5, 15)]
     # directed scenario (C09): consumers blocked on a far head, a sooner / already expired element arrives
     configs += [("wake", 1), ("wake", 3)] if tier == "quick" else [("wake", 1, 4), ("wake", 3, 4), ("wake", 8, 3)]
+    # directed scenario (C08): saturating delays (zero deadline = MinInt64, year 9999 = MaxInt64) mixed with ordinary ones
+    configs += [("extreme",)] if tier == "quick" else [("extreme", 6)]
     hits, runs = stress(c, binary, configs)
     if broken and not hits:
         more = [(cap, p, cn, 400, d) for cap in (0, 1, 2) for (p, cn) in ((1, 4), (4, 1), (6, 6)) for d in (3, 20)]
@@ -88,7 +90,7 @@ def run(c, binary, labels, tier, focus):
         hits += h2
         runs += r2
     c.cov["dq_stress"] = {"runs": runs, "monitor_hits": len(hits), "timer_semantics": ["asynctimerchan=1", "asynctimerchan=0"],
-                          "monitors": ["early", "once", "cap", "hang", "order(tolerance)", "ctxeffect", "late-wakeup (directed scenario wake)"]}
+                          "monitors": ["early", "once", "cap", "hang", "order(tolerance)", "ctxeffect", "late-wakeup (directed scenario wake)", "order / late-wakeup / early with saturating delays (directed scenario extreme)"]}
     # 4. report
     found = False
     for m in mism[:3]:
